@@ -27,7 +27,9 @@ import (
 	"github.com/akrennmair/updog/verifharness/vf"
 	"github.com/anishathalye/porcupine"
 	"google.golang.org/grpc"
+	"google.golang.org/grpc/codes"
 	"google.golang.org/grpc/credentials/insecure"
+	"google.golang.org/grpc/status"
 )
 
 func init() {
@@ -1021,6 +1023,7 @@ func c04Server(r *vf.Run) {
 	var mu sync.Mutex
 	var mismatches, rpcErrs []string
 	var spansAll []span
+	var stuck, rejected int64
 	start := time.Now()
 	gate := make(chan struct{})
 	for c := 0; c < clients; c++ {
@@ -1038,7 +1041,26 @@ func c04Server(r *vf.Run) {
 			cl := pb.NewQueryServiceClient(conn)
 			lr := rand.New(rand.NewSource(r.Seed*31 + int64(c)))
 			<-gate
-			for i := 0; i < perClient; i++ {
+			for i := 0; i < perClient && atomic.LoadInt64(&stuck) == 0; i++ {
+				if i%5 == 3 {
+					// (round 7) a request the library rejects, next to everybody else's valid ones: it gets its error, and the
+					// server goes on answering the others
+					bad := &pb.QueryRequest{Queries: []*pb.Query{{Expr: oracle.Eq(fmt.Sprintf("no_such_column_%d_%d", c, i), "x").ToProto()}}}
+					if i%10 == 3 {
+						bad = &pb.QueryRequest{Queries: []*pb.Query{{Expr: pool[lr.Intn(len(pool))].E.ToProto(), GroupBy: []string{"no_such_group_by_column"}}}}
+					}
+					ctx, cancel := context.WithTimeout(context.Background(), 60*time.Second)
+					_, err := cl.Query(ctx, bad)
+					cancel()
+					atomic.AddInt64(&rejected, 1)
+					if status.Code(err) == codes.DeadlineExceeded {
+						atomic.StoreInt64(&stuck, 1)
+						mu.Lock()
+						rpcErrs = append(rpcErrs, "a request with an unknown column got no answer within 60 s: "+err.Error())
+						mu.Unlock()
+					}
+					continue
+				}
 				n := 1 + lr.Intn(4)
 				req := &pb.QueryRequest{}
 				var qs []c04Query
@@ -1058,6 +1080,9 @@ func c04Server(r *vf.Run) {
 				mu.Lock()
 				spansAll = append(spansAll, span{t0, t1})
 				mu.Unlock()
+				if status.Code(err) == codes.DeadlineExceeded {
+					atomic.StoreInt64(&stuck, 1) // the others stop as well: every further request would wait out its deadline
+				}
 				if err != nil {
 					mu.Lock()
 					if len(rpcErrs) < 5 {
@@ -1084,6 +1109,7 @@ func c04Server(r *vf.Run) {
 	r.Eval(len(spansAll))
 	r.Count("server_requests", int64(len(spansAll)))
 	r.Count("server_overlapping_request_pairs", pairs)
+	r.Count("server_requests_the_library_rejects", atomic.LoadInt64(&rejected))
 	r.Max("server_requests_in_flight", int64(maxIn))
 	r.Distinct(fmt.Sprintf("server|%d|%d", len(spansAll), pairs))
 	if !alive {
